@@ -62,6 +62,16 @@ impl<K, V> HashMap<K, V> {
     #[verifier::external_body]
     pub fn is_empty(&self) -> (r: bool) ensures r == self.is_empty_spec() { unimplemented!() }
 }
+impl<K, V> HashMap<K, V> {
+    pub uninterp spec fn view(&self) -> Map<K, V>;
+    /// ASSUMED contract of FxHashMap::get
+    #[verifier::external_body]
+    pub fn get(&self, k: &K) -> (r: Option<&V>)
+        ensures
+            self.view().contains_key(*k) ==> r == Some(&self.view()[*k]),
+            !self.view().contains_key(*k) ==> r.is_none(),
+    { unimplemented!() }
+}
 
 //@ item parser/src/cfg/key_override.rs struct OverrideStates
 //@@ keep-vis
@@ -205,6 +215,8 @@ impl Overrides {
         ensures
             final(oscs_to_add)@ == self.upd_add(active_osc, active_mod_mask, old(oscs_to_add)@, old(oscs_to_remove)@),
             final(oscs_to_remove)@ == self.upd_rem(active_osc, active_mod_mask, old(oscs_to_add)@, old(oscs_to_remove)@),
+            // what the function itself is PROVED to do (update_keys_impl below: the same text)
+            upd_ok(*self, active_osc, active_mod_mask, old(oscs_to_add)@, old(oscs_to_remove)@, final(oscs_to_add)@, final(oscs_to_remove)@),
     { unimplemented!() }
     /// one key of the list: a modifier is remembered; any other key goes through the selection with
     /// the modifiers that came BEFORE it in the list
@@ -314,3 +326,110 @@ proof fn lemma_kept_prefix(a: Seq<KeyCode>, b: Seq<KeyCode>, rem: Seq<OsCode>, n
             && kcs@ == pick(k0, d);
         lemma_pick_kept(k0, d, rem);
     }
+
+// ---------------------------------------------------------------------------------------
+// THE SELECTION (late): "when several overrides of the same key match, the one with the most
+// modifiers wins".  Overrides::update_keys selects with `ovds.iter().filter(CLOSURE).last()`, where
+// the closure keeps a running maximum in a captured counter.  The closure BODY is cut as a fragment
+// (block-after the closure header) and wrapped in a synthetic signature: the captured counter becomes
+// a `&mut` parameter (every use `cur_chord_size` -> `(*cur_chord_size)`, R46), the captured mask is a parameter.  Proved: one
+// call of the closure is one step of the scan `scan` below; and, as a lemma about `scan`: the last
+// override the closure accepts is a matching one with the largest number of modifiers among ALL
+// matching overrides of the key (the first such one in table order), and nothing is accepted iff
+// none matches.  ASSUMED (std): filter calls the closure once per element, in order, and last()
+// returns the last element it accepted.
+// ---------------------------------------------------------------------------------------
+//@ raw
+spec fn ov_matches(o: Override, mods: u8) -> bool {
+    let m = mask_of(o.in_mod_oscs@, o.in_mod_oscs@.len() as int);
+    m & mods == m
+}
+spec fn ov_size(o: Override) -> int { o.in_mod_oscs@.len() as int + 1 }
+/// the first n overrides of the key, scanned in order: (index of the last accepted one or -1, the running maximum)
+spec fn scan(ovds: Seq<Override>, mods: u8, n: int) -> (int, int)
+    decreases n,
+{
+    if n <= 0 { (-1, 0) } else {
+        let p = scan(ovds, mods, n - 1);
+        if ov_matches(ovds[n - 1], mods) && ov_size(ovds[n - 1]) > p.1 { (n - 1, ov_size(ovds[n - 1])) } else { p }
+    }
+}
+proof fn lemma_scan_picks_most_modifiers(ovds: Seq<Override>, mods: u8, n: int)
+    requires 0 <= n <= ovds.len(),
+    ensures ({
+        let p = scan(ovds, mods, n);
+        // something is selected iff some override matches ..
+        &&& (p.0 < 0 <==> forall|j: int| 0 <= j < n ==> !ov_matches(#[trigger] ovds[j], mods))
+        &&& p.0 < 0 ==> p.1 == 0
+        // .. and the selected one matches, has the largest number of modifiers among all matching
+        // ones, and is the first such in table order
+        &&& p.0 >= 0 ==> p.0 < n && ov_matches(ovds[p.0], mods) && ov_size(ovds[p.0]) == p.1
+            && (forall|j: int| 0 <= j < n && ov_matches(#[trigger] ovds[j], mods) ==> ov_size(ovds[j]) <= p.1)
+            && (forall|j: int| 0 <= j < p.0 && ov_matches(#[trigger] ovds[j], mods) ==> ov_size(ovds[j]) < p.1)
+    }),
+    decreases n,
+{
+    if n > 0 {
+        lemma_scan_picks_most_modifiers(ovds, mods, n - 1);
+        let q = scan(ovds, mods, n - 1);
+        let p = scan(ovds, mods, n);
+        if ov_matches(ovds[n - 1], mods) && ov_size(ovds[n - 1]) > q.1 {
+            assert(p.0 == n - 1);
+        } else {
+            assert(p == q);
+            if ov_matches(ovds[n - 1], mods) { assert(q.0 >= 0) by { if q.0 < 0 { assert(q.1 == 0); assert(ov_size(ovds[n - 1]) >= 1); } } }
+        }
+    }
+}
+
+//@ fragment parser/src/cfg/key_override.rs fn update_keys in `Overrides` block-after `.filter(|ovd| {` as select_step
+//@@ header
+fn select_step(ovd: &Override, active_mod_mask: u8, cur_chord_size: &mut usize) -> bool
+//@@ resub R46 + /(?<![(*])\bcur_chord_size\b(?!:)/ => `(*cur_chord_size)`
+//@@ ret r
+//@@ spec
+    requires
+        all_mods(ovd.in_mod_oscs@),
+        ovd.in_mod_oscs@.len() < usize::MAX,
+    ensures
+        // one step of the scan: accepted iff it matches the held modifiers and has MORE modifiers
+        // than anything accepted so far; the running maximum follows
+        r == (ov_matches(*ovd, active_mod_mask) && ov_size(*ovd) > *old(cur_chord_size)),
+        *final(cur_chord_size) == (if r { ov_size(*ovd) as usize } else { *old(cur_chord_size) }),
+
+// Overrides::update_keys itself, cut whole (under the name update_keys_impl; its callers above use
+// the stub with the uninterpreted effect).  `ovds.iter().filter(CLOSURE).last()` is replaced by a
+// helper whose contract is the scan (R47; the closure body is the fragment select_step above).
+// Proved: a key without overrides, or with none matching, leaves both lists alone; otherwise the
+// override `scan` names - the matching one with the most modifiers - gets its output keys into the
+// add list and its whole input combination into the remove list, and nothing else is added.
+//@ raw
+/// R47: `ovds.iter().filter(|ovd| { .. }).last()` -> this helper.  ASSUMED (std): filter calls the
+/// closure once per element in order, last() returns the last accepted element; the closure's single
+/// step is select_step
+#[verifier::external_body]
+fn verif_filter_last<'o>(ovds: &'o Vec<Override>, active_mod_mask: u8) -> (r: Option<&'o Override>)
+    ensures ({
+        let p = scan(ovds@, active_mod_mask, ovds@.len() as int);
+        &&& p.0 < 0 ==> r is None
+        &&& p.0 >= 0 ==> r == Some(&ovds@[p.0])
+    }),
+{ unimplemented!() }
+/// what update_keys must do to the two lists
+spec fn upd_ok(ov: Overrides, osc: OsCode, mods: u8, add0: Seq<OsCode>, rem0: Seq<OsCode>, add1: Seq<OsCode>, rem1: Seq<OsCode>) -> bool {
+    let m = ov.overrides_by_osc.view();
+    if !m.contains_key(osc) { add1 == add0 && rem1 == rem0 }
+    else {
+        let p = scan(m[osc]@, mods, m[osc]@.len() as int);
+        if p.0 < 0 { add1 == add0 && rem1 == rem0 }
+        else {
+            let o = m[osc]@[p.0];
+            added(add0, add1, o.out_mod_oscs@, o.out_non_mod_osc) && added(rem0, rem1, o.in_mod_oscs@, o.in_non_mod_osc)
+        }
+    }
+}
+//@ item parser/src/cfg/key_override.rs fn update_keys in `Overrides` as update_keys_impl
+//@@ wrap impl Overrides
+//@@ resub R47 1 /ovds\s*\.iter\(\)\s*\.filter\(\|ovd\| \{[\s\S]*?\}\)\s*\.last\(\)/ => `verif_filter_last(ovds, active_mod_mask)`
+//@@ spec
+    ensures upd_ok(*self, active_osc, active_mod_mask, old(oscs_to_add)@, old(oscs_to_remove)@, final(oscs_to_add)@, final(oscs_to_remove)@),
